@@ -12,6 +12,11 @@
 //   p2p <mode> <cont> <ty> shift=S : [src0]/[dst0] | [src1]/[dst1] | ...
 //   pack <mode> np=P shift=S extra=K : kind/ty/[src]/[dst] kind/ty/[src]/[dst] ...
 //   tmap <ty> np=P count=C lay=[..]
+//   misc np=P                       rank/size of world, self, the stand-in; barrier codes; refused point-to-point calls
+//
+// "light" element types (uchar short ushort uint ulong float ldouble cfloat cldouble llong pod) exercise the rest
+// of the ComposeMPITraits table and the byte-wise fallback datatype; they are instantiated for reductions
+// (sc/ip/io), bcast.ptr, gatherv.ptr, allgather.ptr, MPIPack scalars/vectors and the typemap decoding only.
 #include <config.h>
 
 #include <mpi.h>
@@ -205,6 +210,69 @@ template <> struct TT<IP> {
   static std::vector<int> comm() { return {0, 2}; }
 };
 
+// ---- light types: the remaining intrinsic types of mpitraits.hh and two types served by the byte-wise fallback
+using CplxF = std::complex<float>;
+using CplxL = std::complex<long double>;
+struct Pod { char a; double b; short c; };
+#define LIGHT_TT(T, NAME, INTR)                                   \
+  template <> struct TT<T> {                                      \
+    static constexpr int E = 1;                                   \
+    static constexpr bool trueScalar = true;                      \
+    static constexpr bool intrinsic = INTR;                       \
+    static constexpr bool light = true;                           \
+    static const char* name() { return NAME; }                    \
+    static void to(const T& x, cell* c) { c[0] = (cell)x; }       \
+    static T from(const cell* c) { return (T)c[0]; }              \
+    static std::vector<int> comm() { return {0}; }                \
+  }
+LIGHT_TT(unsigned char, "uchar", true);
+LIGHT_TT(short, "short", true);
+LIGHT_TT(unsigned short, "ushort", true);
+LIGHT_TT(unsigned int, "uint", true);
+LIGHT_TT(long long, "llong", false);
+template <> struct TT<unsigned long> {
+  static constexpr int E = 1;
+  static constexpr bool trueScalar = true, intrinsic = true, light = true;
+  static const char* name() { return "ulong"; }
+  static void to(const unsigned long& x, cell* c) { c[0] = (cell)(unsigned __int128)x; }
+  static unsigned long from(const cell* c) { return (unsigned long)(unsigned __int128)c[0]; }
+  static std::vector<int> comm() { return {0}; }
+};
+template <class F, const char* const& NAME> struct FloatTT {
+  static constexpr int E = 1;
+  static constexpr bool trueScalar = true, intrinsic = true, light = true;
+  static const char* name() { return NAME; }
+  static void to(const F& x, cell* c) { c[0] = (cell)(long long)x; }
+  static F from(const cell* c) { return (F)(long long)c[0]; }
+  static std::vector<int> comm() { return {0}; }
+};
+static const char* const N_FLOAT = "float";
+static const char* const N_LDOUBLE = "ldouble";
+template <> struct TT<float> : FloatTT<float, N_FLOAT> {};
+template <> struct TT<long double> : FloatTT<long double, N_LDOUBLE> {};
+template <class C, class F, const char* const& NAME> struct ComplexTT {
+  static constexpr int E = 2;
+  static constexpr bool trueScalar = true, intrinsic = true, light = true;
+  static const char* name() { return NAME; }
+  static void to(const C& x, cell* c) { c[0] = (cell)(long long)x.real(); c[1] = (cell)(long long)x.imag(); }
+  static C from(const cell* c) { return C((F)(long long)c[0], (F)(long long)c[1]); }
+  static std::vector<int> comm() { return {0, 1}; }
+};
+static const char* const N_CFLOAT = "cfloat";
+static const char* const N_CLDOUBLE = "cldouble";
+template <> struct TT<CplxF> : ComplexTT<CplxF, float, N_CFLOAT> {};
+template <> struct TT<CplxL> : ComplexTT<CplxL, long double, N_CLDOUBLE> {};
+template <> struct TT<Pod> {
+  static constexpr int E = 3;
+  static constexpr bool trueScalar = true, intrinsic = false, light = true;
+  static const char* name() { return "pod"; }
+  static void to(const Pod& x, cell* c) { c[0] = (signed char)x.a; c[1] = (cell)(long long)x.b; c[2] = x.c; }
+  static Pod from(const cell* c) { Pod p; std::memset(&p, 0, sizeof p); p.a = (char)(int)c[0]; p.b = (double)(long long)c[1]; p.c = (short)c[2]; return p; }
+  static std::vector<int> comm() { return {0, 1, 2}; }
+};
+template <class T, class = void> struct IsLight : std::false_type {};
+template <class T> struct IsLight<T, std::enable_if_t<TT<T>::light>> : std::true_type {};
+
 template <class T> std::vector<T> fromCells(const Cells& c) {
   constexpr int E = TT<T>::E;
   if (c.size() % E) throw std::runtime_error("cell count not a multiple of the element size");
@@ -233,8 +301,23 @@ template <class F> bool withType(const std::string& ty, F&& f) {
   else if (ty == "pli") f(Tag<PLI>{});
   else if (ty == "ip") f(Tag<IP>{});
   else if (ty == "char") f(Tag<char>{});
+  else if (ty == "uchar") f(Tag<unsigned char>{});
+  else if (ty == "short") f(Tag<short>{});
+  else if (ty == "ushort") f(Tag<unsigned short>{});
+  else if (ty == "uint") f(Tag<unsigned int>{});
+  else if (ty == "ulong") f(Tag<unsigned long>{});
+  else if (ty == "float") f(Tag<float>{});
+  else if (ty == "ldouble") f(Tag<long double>{});
+  else if (ty == "cfloat") f(Tag<CplxF>{});
+  else if (ty == "cldouble") f(Tag<CplxL>{});
+  else if (ty == "llong") f(Tag<long long>{});
+  else if (ty == "pod") f(Tag<Pod>{});
   else return false;
   return true;
+}
+static bool isLightName(const std::string& ty) {
+  static const std::vector<std::string> L = {"uchar", "short", "ushort", "uint", "ulong", "float", "ldouble", "cfloat", "cldouble", "llong", "pod"};
+  return std::find(L.begin(), L.end(), ty) != L.end();
 }
 struct TyInfo { int E; std::vector<int> comm; };
 static TyInfo tyInfo(const std::string& ty) {
@@ -249,13 +332,35 @@ struct CwMax {
   FV3 operator()(const FV3& a, const FV3& b) const { FV3 r; for (int i = 0; i < 3; ++i) r[i] = std::max(a[i], b[i]); return r; }
 };
 
+// associative but NOT commutative user functors: the fold must run in rank order
+struct First {
+  int operator()(const int& a, const int&) const { return a; }
+};
+struct Aff {  // (a,b,c) = the map x -> a*x+b (mod 1009) applied c times over; composition "first argument first"
+  FV3 operator()(const FV3& f, const FV3& g) const {
+    FV3 r;
+    r[0] = (int)(((long)f[0] * g[0]) % 1009);
+    r[1] = (int)(((long)g[0] * f[1] + g[1]) % 1009);
+    r[2] = f[2] + g[2];
+    return r;
+  }
+};
+
 // which functors exist for which type
 template <class T, class F> bool withFun(const std::string& fn, F&& f) {
-  constexpr bool arith = std::is_same_v<T, int> || std::is_same_v<T, long> || std::is_same_v<T, double>;
-  if constexpr (arith || std::is_same_v<T, Cplx> || std::is_same_v<T, FV3> || std::is_same_v<T, Big>)
+  constexpr bool lightArith = std::is_same_v<T, unsigned char> || std::is_same_v<T, short> || std::is_same_v<T, unsigned short> ||
+                              std::is_same_v<T, unsigned int> || std::is_same_v<T, unsigned long> || std::is_same_v<T, float> ||
+                              std::is_same_v<T, long double> || std::is_same_v<T, long long>;
+  constexpr bool cplx = std::is_same_v<T, Cplx> || std::is_same_v<T, CplxF> || std::is_same_v<T, CplxL>;
+  constexpr bool arith = std::is_same_v<T, int> || std::is_same_v<T, long> || std::is_same_v<T, double> || lightArith;
+  if constexpr (arith || cplx || std::is_same_v<T, FV3> || std::is_same_v<T, Big>)
     if (fn == "sum") { f(Tag<std::plus<T>>{}); return true; }
-  if constexpr (arith || std::is_same_v<T, Cplx> || std::is_same_v<T, Big>)
+  if constexpr (arith || cplx || std::is_same_v<T, Big>)
     if (fn == "prod") { f(Tag<std::multiplies<T>>{}); return true; }
+  if constexpr (std::is_same_v<T, int>)
+    if (fn == "first") { f(Tag<First>{}); return true; }
+  if constexpr (std::is_same_v<T, FV3>)
+    if (fn == "aff") { f(Tag<Aff>{}); return true; }
   if constexpr (arith || std::is_same_v<T, Big> || std::is_same_v<T, PairIC>) {
     if (fn == "min") { f(Tag<Dune::Min<T>>{}); return true; }
     if (fn == "max") { f(Tag<Dune::Max<T>>{}); return true; }
@@ -267,10 +372,12 @@ template <class T, class F> bool withFun(const std::string& fn, F&& f) {
   return false;
 }
 static std::vector<std::string> funsOf(const std::string& ty) {
-  if (ty == "int") return {"sum", "prod", "min", "max", "xor"};
+  if (ty == "int") return {"sum", "prod", "min", "max", "xor", "first", "first"};
   if (ty == "long" || ty == "double" || ty == "big96") return {"sum", "prod", "min", "max"};
-  if (ty == "complex") return {"sum", "prod"};
-  if (ty == "fv3") return {"sum", "cwmax"};
+  if (ty == "uchar" || ty == "short" || ty == "ushort" || ty == "uint" || ty == "ulong" || ty == "float" || ty == "ldouble" || ty == "llong")
+    return {"sum", "prod", "min", "max"};
+  if (ty == "complex" || ty == "cfloat" || ty == "cldouble") return {"sum", "prod"};
+  if (ty == "fv3") return {"sum", "cwmax", "aff", "aff"};
   if (ty == "pair") return {"min", "max"};
   return {};
 }
@@ -370,7 +477,9 @@ static const unsigned __int128 MASK96 = (((unsigned __int128)1) << 96) - 1;
 static Cells redElem(const std::string& ty, const std::string& fn, const Cells& a, const Cells& b) {
   Cells r(a.size());
   auto lexLess = [](const Cells& x, const Cells& y) { return std::lexicographical_compare(x.begin(), x.end(), y.begin(), y.end()); };
-  if (ty == "complex" && fn == "prod") return {a[0] * b[0] - a[1] * b[1], a[0] * b[1] + a[1] * b[0]};
+  if ((ty == "complex" || ty == "cfloat" || ty == "cldouble") && fn == "prod") return {a[0] * b[0] - a[1] * b[1], a[0] * b[1] + a[1] * b[0]};
+  if (fn == "first") return a;
+  if (fn == "aff") return {(a[0] * b[0]) % 1009, (b[0] * a[1] + b[1]) % 1009, a[2] + b[2]};
   if (ty == "pair") return fn == "min" ? (lexLess(b, a) ? b : a) : (lexLess(a, b) ? b : a);
   for (size_t i = 0; i < a.size(); ++i) {
     if (ty == "big96") {
@@ -579,6 +688,47 @@ std::vector<T> callColl(CC& cc, const std::string& op, const Local& L) {
   throw Unsupported{};
 }
 
+// the restricted set of calls instantiated for the light element types
+template <class T>
+std::vector<T> callLight(MpiComm& cc, const std::string& op, const Local& L) {
+  std::string base = baseOf(op), form = formOf(op);
+  std::vector<T> in = fromCells<T>(L.in), out = fromCells<T>(L.out);
+  std::vector<int> lens = L.lens, displs = L.displs;
+  int n = L.n, root = L.root;
+  auto ok = [](int rc) { if (rc != 0) throw std::runtime_error("collective returned an error code"); };
+  if (base == "red") {
+    bool done = false;
+    if (!withFun<T>(funOf(op), [&](auto tag) {
+          using F = typename decltype(tag)::type;
+          if (form == "sc") {
+            if (n != 1) return;
+            if constexpr (std::is_same_v<F, std::plus<T>>) out[0] = cc.sum(in[0]);
+            else if constexpr (std::is_same_v<F, std::multiplies<T>>) out[0] = cc.prod(in[0]);
+            else if constexpr (std::is_same_v<F, Dune::Min<T>>) out[0] = cc.min(in[0]);
+            else if constexpr (std::is_same_v<F, Dune::Max<T>>) out[0] = cc.max(in[0]);
+            else return;
+            done = true;
+          } else if (form == "ip") {
+            ok(cc.template allreduce<F>(in.data(), n));
+            std::copy(in.begin(), in.begin() + n, out.begin());
+            done = true;
+          } else if (form == "io") {
+            ok(cc.template allreduce<F>(in.data(), out.data(), n));
+            done = true;
+          }
+        }) || !done)
+      throw Unsupported{};
+    return out;
+  }
+  if (base == "bcast" && form == "ptr") { ok(cc.broadcast(out.data(), n, root)); return out; }
+  if (base == "gatherv" && form == "ptr") {
+    ok(cc.gatherv(in.data(), (int)in.size(), out.data(), lens.data(), displs.data(), root));
+    return out;
+  }
+  if (base == "allgather" && form == "ptr") { ok(cc.allgather(in.data(), n, out.data())); return out; }
+  throw Unsupported{};
+}
+
 static std::string diffMsg(const Cells& got, const Cells& want) {
   return "got " + cellsStr(got) + " expected " + cellsStr(want);
 }
@@ -600,7 +750,11 @@ static Result execColl(const std::string& line) {
   bool okType = withType(k.ty, [&](auto tag) {
     using T = typename decltype(tag)::type;
     if constexpr (std::is_same_v<T, char>) throw Unsupported{};
-    else {
+    else if constexpr (IsLight<T>::value) {
+      if (k.comm == "world") { MpiComm cc(MPI_COMM_WORLD); got = toCells(callLight<T>(cc, k.op, L)); }
+      else if (k.comm == "self") { MpiComm cc(MPI_COMM_SELF); got = toCells(callLight<T>(cc, k.op, L)); }
+      else throw Unsupported{};
+    } else {
       if (k.comm == "world") { MpiComm cc(MPI_COMM_WORLD); got = toCells(callColl<T>(cc, k.op, L)); }
       else if (k.comm == "self") { MpiComm cc(MPI_COMM_SELF); got = toCells(callColl<T>(cc, k.op, L)); }
       else if (k.comm == "seq") {
@@ -615,7 +769,8 @@ static Result execColl(const std::string& line) {
   res.impl = cellsStr(got);
   stat("coll_" + baseOf(k.op));
   stat("form_" + formOf(k.op));
-  if (baseOf(k.op) == "red") stat("fun_" + funOf(k.op));
+  if (baseOf(k.op) == "red") { stat("fun_" + funOf(k.op)); if (k.n > 100) stat("red_long"); }
+  if (k.n == 0 && baseOf(k.op) == "red") stat("red_len0");
   if (baseOf(k.op) != "red" && baseOf(k.op) != "barrier") stat("len_" + std::to_string(k.comm == "world" ? (int)k.ins[L.rank].size() / ti.E : (int)L.in.size() / ti.E));
   stat("ty_" + k.ty);
   stat("comm_" + k.comm);
@@ -652,18 +807,20 @@ static bool cycleLeader(int r, int shift, int P) {
   while (x != r) { if (x < r) return false; x = (x + shift) % P; }
   return true;
 }
-template <class C, class CC> C p2pExchange(CC& cc, const std::string& mode, C src, C dst, int to, int from, int rank, int shift, int P) {
+// st != nullptr: the caller wants the MPI_Status of the receive (the non-default branch of recv/rrecv)
+template <class C, class CC> C p2pExchange(CC& cc, const std::string& mode, C src, C dst, int to, int from, int rank, int shift, int P, MPI_Status* st) {
   const int tag = 7;
+  MPI_Status* stArg = st ? st : MPI_STATUS_IGNORE;
   if (mode == "isend_recv") {
     auto f = cc.isend(std::move(src), to, tag);
-    C got = cc.recv(std::move(dst), from, tag);
+    C got = cc.recv(std::move(dst), from, tag, stArg);
     f.wait();
     return got;
   }
   if (mode == "isend_rrecv") {
     if constexpr (!decltype(Dune::getMPIData(std::declval<C&>()))::static_size) {
       auto f = cc.isend(std::move(src), to, tag);
-      C got = cc.rrecv(std::move(dst), from, tag);
+      C got = cc.rrecv(std::move(dst), from, tag, stArg);
       f.wait();
       return got;
     } else throw Unsupported{};
@@ -676,8 +833,8 @@ template <class C, class CC> C p2pExchange(CC& cc, const std::string& mode, C sr
   if (mode == "chain_recv" || mode == "chain_rrecv") {  // blocking send and receive, ordered along the cycles
     if (shift % P == 0) throw Unsupported{};
     auto rcv = [&](C d) -> C {
-      if (mode == "chain_recv") return cc.recv(std::move(d), from, tag);
-      if constexpr (!decltype(Dune::getMPIData(std::declval<C&>()))::static_size) return cc.rrecv(std::move(d), from, tag);
+      if (mode == "chain_recv") return cc.recv(std::move(d), from, tag, stArg);
+      if constexpr (!decltype(Dune::getMPIData(std::declval<C&>()))::static_size) return cc.rrecv(std::move(d), from, tag, stArg);
       else throw Unsupported{};
     };
     if (cycleLeader(rank, shift % P, P)) { cc.send(src, to, tag); return rcv(std::move(dst)); }
@@ -712,31 +869,50 @@ static Result execP2p(const std::string& line) {
   xfer(ti, incoming, 0, want, 0, incoming.size() / ti.E);
   Cells got;
   MpiComm cc(MPI_COMM_WORLD);
+  bool wantStatus = false;
+  for (auto& t : toks) if (t == "st=1") wantStatus = true;
+  if (mode == "irecv_send") wantStatus = false;  // irecv has no status argument
+  MPI_Status status;
+  std::memset(&status, 0, sizeof status);
+  MPI_Status* st = wantStatus ? &status : nullptr;
+  MPI_Datatype elemType = MPI_DATATYPE_NULL;
   withType(ty, [&](auto tag) {
     using T = typename decltype(tag)::type;
+    if constexpr (IsLight<T>::value) throw Unsupported{};
+    else {
+    elemType = Dune::MPITraits<T>::getType();
     if (cont == "sc") {
       if constexpr (std::is_same_v<T, char>) throw Unsupported{};
       else {
         T s = fromCells<T>(srcs[rank]).at(0), d = fromCells<T>(dsts[rank]).at(0);
-        T g = p2pExchange<T>(cc, mode, s, d, to, from, rank, shift, size);
+        T g = p2pExchange<T>(cc, mode, s, d, to, from, rank, shift, size, st);
         got = toCells(&g, 1);
       }
     } else if (cont == "vec") {
       if constexpr (std::is_same_v<T, char>) throw Unsupported{};
-      else got = toCells(p2pExchange<std::vector<T>>(cc, mode, fromCells<T>(srcs[rank]), fromCells<T>(dsts[rank]), to, from, rank, shift, size));
+      else got = toCells(p2pExchange<std::vector<T>>(cc, mode, fromCells<T>(srcs[rank]), fromCells<T>(dsts[rank]), to, from, rank, shift, size, st));
     } else if (cont == "str") {
       if constexpr (std::is_same_v<T, char>) {
         auto s = fromCells<char>(srcs[rank]), d = fromCells<char>(dsts[rank]);
-        std::string g = p2pExchange<std::string>(cc, mode, std::string(s.begin(), s.end()), std::string(d.begin(), d.end()), to, from, rank, shift, size);
+        std::string g = p2pExchange<std::string>(cc, mode, std::string(s.begin(), s.end()), std::string(d.begin(), d.end()), to, from, rank, shift, size, st);
         got = toCells(g.data(), g.size());
       } else throw Unsupported{};
     } else throw Unsupported{};
+    }
   });
   res.impl = cellsStr(got);
   stat("p2p_" + mode);
   stat("p2pcont_" + cont);
   stat("ty_" + ty);
+  if (wantStatus) stat("p2p_with_status");
   if (got != want) res.oracle = "FAIL p2p " + mode + " " + cont + ": " + diffMsg(got, want);
+  if (res.oracle == "ok" && wantStatus) {
+    int cnt = -1;
+    MPI_Get_count(&status, elemType, &cnt);
+    if (status.MPI_SOURCE != from || status.MPI_TAG != 7 || cnt != (int)(incoming.size() / ti.E))
+      res.oracle = "FAIL p2p " + mode + ": status reports source " + std::to_string(status.MPI_SOURCE) + " tag " + std::to_string(status.MPI_TAG) +
+                   " count " + std::to_string(cnt) + ", expected source " + std::to_string(from) + " tag 7 count " + std::to_string(incoming.size() / ti.E);
+  }
   return res;
 }
 
@@ -754,27 +930,38 @@ static std::vector<PItem> parseItems(const std::string& s) {
 }
 template <class T> std::array<T, 3> toArr(const std::vector<T>& v) { return {v.at(0), v.at(1), v.at(2)}; }
 
-static void packOne(Dune::MPIPack& p, const PItem& it) {
+// is this (kind, type) combination offered at all?  (decided before anything is packed, so that a refused item never
+// leaves a half-written buffer behind)
+static bool packSupported(const PItem& it) {
+  bool light = isLightName(it.ty);
+  if (it.kind == "s") return true;
+  if (it.kind == "a") return !light;
+  if (it.kind == "v") return it.ty != "char";
+  if (it.kind == "t") return it.ty == "char";
+  return false;
+}
+// alt: use the named member functions write()/read() instead of the stream operators
+static void packOne(Dune::MPIPack& p, const PItem& it, bool alt) {
   withType(it.ty, [&](auto tag) {
     using T = typename decltype(tag)::type;
     auto v = fromCells<T>(it.src);
-    if (it.kind == "s") p << v.at(0);
-    else if (it.kind == "a") p << toArr(v);
-    else if (it.kind == "v") { if constexpr (std::is_same_v<T, char>) throw Unsupported{}; else p << v; }
-    else if (it.kind == "t") { if constexpr (std::is_same_v<T, char>) p << std::string(v.begin(), v.end()); else throw Unsupported{}; }
+    if (it.kind == "s") { if (alt) p.write(v.at(0)); else p << v.at(0); }
+    else if (it.kind == "a") { if constexpr (IsLight<T>::value) throw Unsupported{}; else { if (alt) p.write(toArr(v)); else p << toArr(v); } }
+    else if (it.kind == "v") { if constexpr (std::is_same_v<T, char>) throw Unsupported{}; else { if (alt) p.write(v); else p << v; } }
+    else if (it.kind == "t") { if constexpr (std::is_same_v<T, char>) { std::string str(v.begin(), v.end()); if (alt) p.write(str); else p << str; } else throw Unsupported{}; }
     else throw Unsupported{};
   });
 }
-static Cells unpackOne(Dune::MPIPack& p, const PItem& it) {
+static Cells unpackOne(Dune::MPIPack& p, const PItem& it, bool alt) {
   Cells out;
   withType(it.ty, [&](auto tag) {
     using T = typename decltype(tag)::type;
     auto d = fromCells<T>(it.dst);
-    if (it.kind == "s") { T x = d.at(0); p >> x; out = toCells(&x, 1); }
-    else if (it.kind == "a") { auto a = toArr(d); p >> a; out = toCells(a.data(), 3); }
-    else if (it.kind == "v") { if constexpr (std::is_same_v<T, char>) throw Unsupported{}; else { p >> d; out = toCells(d); } }
+    if (it.kind == "s") { T x = d.at(0); if (alt) p.read(x); else p >> x; out = toCells(&x, 1); }
+    else if (it.kind == "a") { if constexpr (IsLight<T>::value) throw Unsupported{}; else { auto a = toArr(d); if (alt) p.read(a); else p >> a; out = toCells(a.data(), 3); } }
+    else if (it.kind == "v") { if constexpr (std::is_same_v<T, char>) throw Unsupported{}; else { if (alt) p.read(d); else p >> d; out = toCells(d); } }
     else if (it.kind == "t") {
-      if constexpr (std::is_same_v<T, char>) { std::string s(d.begin(), d.end()); p >> s; out = toCells(s.data(), s.size()); }
+      if constexpr (std::is_same_v<T, char>) { std::string s(d.begin(), d.end()); if (alt) p.read(s); else p >> s; out = toCells(s.data(), s.size()); }
       else throw Unsupported{};
     } else throw Unsupported{};
   });
@@ -800,29 +987,43 @@ static Result execPack(const std::string& line) {
   int shift = std::stoi(kv(toks, "shift")), extra = std::stoi(kv(toks, "extra"));
   if (std::stoi(kv(toks, "np")) != size) { res.impl = "ERR:ranks"; res.oracle = "ok trivial"; return res; }
   auto items = parseItems(line.substr(c + 2));
+  for (auto& it : items) { tyInfo(it.ty); if (!packSupported(it)) throw Unsupported{}; }
   MpiComm cc(MPI_COMM_WORLD);
   int to = (rank + shift) % size, from = ((rank - shift) % size + size) % size, root = shift % size;
   int wantFirst = rank;
   std::vector<Cells> got;
   int first = INT_MIN;
   std::string problem;
+  // every second item goes through write()/read() instead of << / >>
   auto readAll = [&](Dune::MPIPack& p) {
     p >> first;
-    for (auto& it : items) got.push_back(unpackOne(p, it));
+    for (size_t i = 0; i < items.size(); ++i) got.push_back(unpackOne(p, items[i], i % 2 == 1));
   };
   Dune::MPIPack pack(cc);
   std::vector<int> pos;
   pack << rank;
-  for (auto& it : items) { pos.push_back(pack.tell()); packOne(pack, it); }
+  for (size_t i = 0; i < items.size(); ++i) { pos.push_back(pack.tell()); packOne(pack, items[i], i % 2 == 1); }
   int endPos = pack.tell();
   if ((size_t)endPos > pack.size()) problem = "position " + std::to_string(endPos) + " beyond buffer size " + std::to_string(pack.size());
   if (mode == "local") {
+    // shrink to what was written (eof() must then be true exactly at the end of reading), or grow by `extra` bytes
+    // (must not disturb what was written)
+    if (extra == 0) {
+      pack.resize((size_t)endPos);
+      if (pack.size() != (size_t)endPos) problem = "resize(" + std::to_string(endPos) + ") left size " + std::to_string(pack.size());
+    } else {
+      size_t before = pack.size();
+      pack.enlarge(extra);
+      if (pack.size() != before + (size_t)extra) problem = "enlarge(" + std::to_string(extra) + ") changed the size from " + std::to_string(before) + " to " + std::to_string(pack.size());
+    }
     pack.seek(0);
+    if (pack.eof()) problem = "eof() at position 0 of a buffer of " + std::to_string(pack.size()) + " bytes";
     readAll(pack);
     if (pack.tell() != endPos) problem = "reader ended at " + std::to_string(pack.tell()) + ", writer at " + std::to_string(endPos);
+    if (problem.empty() && pack.eof() != (extra == 0)) problem = std::string("eof() is ") + (pack.eof() ? "true" : "false") + " after reading everything, " + std::to_string(pack.size() - (size_t)endPos) + " bytes behind the position";
   } else if (mode == "tell") {  // random access through saved positions, last item first
     got.resize(items.size());
-    for (size_t i = items.size(); i-- > 0;) { pack.seek(pos[i]); got[i] = unpackOne(pack, items[i]); }
+    for (size_t i = items.size(); i-- > 0;) { pack.seek(pos[i]); got[i] = unpackOne(pack, items[i], i % 2 == 1); }
     pack.seek(0);
     pack >> first;
   } else if (mode == "nest") {
@@ -833,7 +1034,8 @@ static Result execPack(const std::string& line) {
     Dune::MPIPack inner(cc);
     outer >> a >> inner >> b;
     if (a != 111 || b != 222) problem = "values around the nested pack were " + std::to_string(a) + "," + std::to_string(b);
-    if (!(inner == pack)) problem = "nested pack differs from the original";
+    if (!(inner == pack) || inner != pack) problem = "nested pack differs from the original";
+    if (!(outer != pack)) problem = "operator!= says the outer pack equals the inner one";
     inner.seek(0);
     readAll(inner);
   } else if (mode == "send") {
@@ -1030,6 +1232,53 @@ static Result execTmap(const std::string& line) {
 }
 
 // ------------------------------------------------------------------------------------------------------------------
+// misc: rank/size of the three kinds of communicators, barrier return codes, conversions, refused calls
+// ------------------------------------------------------------------------------------------------------------------
+template <class F> static int throwsParallel(F&& f) {
+  try { f(); } catch (Dune::ParallelError&) { return 1; } catch (...) { return 2; }
+  return 0;
+}
+static Result execMisc(const std::string& line) {
+  int rank, size;
+  MPI_Comm_rank(MPI_COMM_WORLD, &rank);
+  MPI_Comm_size(MPI_COMM_WORLD, &size);
+  Result res;
+  auto toks = words(line);
+  if (std::stoi(kv(toks, "np")) != size) { res.impl = "ERR:ranks"; res.oracle = "ok trivial"; return res; }
+  MpiComm world(MPI_COMM_WORLD), self(MPI_COMM_SELF);
+  SeqComm seq;
+  MpiComm fromSeq(seq);                 // Communication<MPI_Comm>(const Communication<No_Comm>&) = MPI_COMM_SELF
+  Dune::No_Comm nc = seq;               // operator No_Comm()
+  (void)nc;
+  int cmp = MPI_UNEQUAL;
+  MPI_Comm_compare((MPI_Comm)fromSeq, MPI_COMM_SELF, &cmp);
+  int cmpW = MPI_UNEQUAL;
+  MPI_Comm_compare((MPI_Comm)world, MPI_COMM_WORLD, &cmpW);
+  int bw = world.barrier(), bs = seq.barrier(), bself = self.barrier();
+  { auto f = seq.ibarrier(); f.wait(); }
+  int thr = 0;  // one bit per refused point-to-point method of the stand-in; irecv of an empty object on MPI
+  int x = 5;
+  std::vector<int> v{1, 2};
+  thr |= (throwsParallel([&] { seq.send(x, 0, 1); }) == 1) << 0;
+  thr |= (throwsParallel([&] { seq.isend(std::move(x), 0, 1); }) == 1) << 1;
+  thr |= (throwsParallel([&] { seq.recv(int(x), 0, 1); }) == 1) << 2;
+  thr |= (throwsParallel([&] { seq.irecv(int(x), 0, 1); }) == 1) << 3;
+  thr |= (throwsParallel([&] { seq.rrecv(std::vector<int>(v), 0, 1); }) == 1) << 4;
+  thr |= (throwsParallel([&] { world.irecv(std::vector<int>(), rank, 99); }) == 1) << 5;
+  std::vector<long> got = {world.rank(), world.size(), self.rank(), self.size(), seq.rank(), seq.size(), fromSeq.rank(), fromSeq.size(),
+                           bw, bself, bs, thr, Dune::MPIHelper::getCommunication().rank(), Dune::MPIHelper::getCommunication().size(),
+                           Dune::MPIHelper::instance().rank(), Dune::MPIHelper::instance().size(),
+                           Dune::FakeMPIHelper::getCommunication().rank(), Dune::FakeMPIHelper::getCommunication().size()};
+  std::vector<long> want = {rank, size, 0, 1, 0, 1, 0, 1, 0, 0, 0, 63, rank, size, rank, size, 0, 1};
+  res.impl = listStr(got);
+  stat("misc");
+  if (got != want) res.oracle = "FAIL rank/size/barrier/refusals: got " + listStr(got) + " expected " + listStr(want);
+  else if (cmp != MPI_IDENT && cmp != MPI_CONGRUENT) res.oracle = "FAIL Communication<MPI_Comm>(Communication<No_Comm>) is not MPI_COMM_SELF";
+  else if (cmpW != MPI_IDENT) res.oracle = "FAIL operator MPI_Comm of the world communicator is not MPI_COMM_WORLD";
+  return res;
+}
+
+// ------------------------------------------------------------------------------------------------------------------
 // executor
 // ------------------------------------------------------------------------------------------------------------------
 static Result exec(const std::string& line) {
@@ -1041,6 +1290,7 @@ static Result exec(const std::string& line) {
     if (toks[0] == "p2p") return execP2p(line);
     if (toks[0] == "pack") return execPack(line);
     if (toks[0] == "tmap") return execTmap(line);
+    if (toks[0] == "misc") return execMisc(line);
     throw std::runtime_error("unknown op kind");
   } catch (Unsupported&) {
     r.impl = "ERR:unsupported";
@@ -1059,6 +1309,7 @@ static Result exec(const std::string& line) {
 // generator
 // ------------------------------------------------------------------------------------------------------------------
 static const std::vector<std::string> ELEM_TYPES = {"int", "long", "double", "complex", "fv3", "big96", "pair", "ip", "pli"};
+static const std::vector<std::string> LIGHT_TYPES = {"uchar", "short", "ushort", "uint", "ulong", "float", "ldouble", "cfloat", "cldouble", "llong", "pod"};
 
 static cell rnd128(Rng& g, int bits) {
   unsigned __int128 v = ((unsigned __int128)g.next() << 64) | g.next();
@@ -1091,6 +1342,26 @@ static Cells genElem(Rng& g, const std::string& ty, const std::string& purpose) 
     if (purpose == "xor") return pickInt(g, 0, hi);
     return pickInt(g, lo, hi);
   };
+  // unsigned / narrow types: [lo,hi] is the full range; sums stay below hi/8 per rank, products below hi for 7 ranks
+  auto ranged = [&](cell lo, cell hi, cell prodB) -> cell {
+    if (purpose == "sum") return pickInt(g, lo < 0 ? -(hi / 8) : 0, hi / 8);
+    if (purpose == "prod") return pickInt(g, lo < 0 ? -prodB : 0, prodB);
+    return pickInt(g, lo, hi);
+  };
+  const cell P24 = ((cell)1) << 24;
+  if (ty == "uchar") return {ranged(0, 255, 2)};
+  if (ty == "short") return {ranged(-32768, 32767, 4)};
+  if (ty == "ushort") return {ranged(0, 65535, 4)};
+  if (ty == "uint") return {ranged(0, (cell)UINT_MAX, 20)};
+  if (ty == "ulong") return {ranged(0, (cell)(unsigned __int128)ULONG_MAX, 500)};
+  if (ty == "llong") return {ranged((cell)LLONG_MIN, (cell)LLONG_MAX, 256)};
+  if (ty == "float") return {ranged(-P24, P24, 10)};
+  if (ty == "ldouble") return {ranged(-P53, P53, 100)};
+  if (ty == "cfloat") return {ranged(-P24, P24, 5), ranged(-P24, P24, 5)};
+  if (ty == "cldouble") return {ranged(-P53, P53, 11), ranged(-P53, P53, 11)};
+  if (ty == "pod") return {pickInt(g, -128, 127), pickInt(g, -P53, P53), pickInt(g, -32768, 32767)};
+  if (ty == "fv3" && purpose == "aff") return {(cell)g.below(1009), (cell)g.below(1009), pickInt(g, -(INT_MAX / 8), INT_MAX / 8)};
+  if (ty == "int" && purpose == "small") return {(cell)g.range(-9, 99)};
   if (ty == "int") return {intLike(INT_MIN, INT_MAX, INT_MAX / 8, 6)};
   if (ty == "long") return {intLike(LONG_MIN, LONG_MAX, LONG_MAX / 8, 256)};
   if (ty == "double") return {intLike(-P53, P53, P53 / 16, 100)};
@@ -1126,10 +1397,13 @@ static int genLen(Rng& g) { static const int L[] = {0, 1, 1, 2, 2, 3, 4, 5}; ret
 static std::string genColl(Rng& g, int P) {
   Case k;
   k.comm = g.below(10) < 6 ? "world" : (g.coin() ? "seq" : "self");
+  bool light = g.coin(1, 4);
+  if (light && k.comm == "seq") k.comm = "self";
   bool world = k.comm == "world", seq = k.comm == "seq";
-  k.ty = g.pick(ELEM_TYPES);
+  k.ty = light ? g.pick(LIGHT_TYPES) : g.pick(ELEM_TYPES);
   bool trueScalar = k.ty != "fv3";
   bool intr = k.ty == "int" || k.ty == "long" || k.ty == "double" || k.ty == "complex";
+  if (light) intr = !(k.ty == "llong" || k.ty == "pod");
   int np = world ? P : 1;
   k.root = (int)g.below(P);
   k.n = genLen(g);
@@ -1139,6 +1413,7 @@ static std::string genColl(Rng& g, int P) {
   k.displs.assign(P, 0);
   k.ins.assign(P, {});
   std::vector<std::string> bases = {"red", "red", "red", "red", "bcast", "gather", "gatherv", "gatherv", "scatter", "scatterv", "scatterv", "allgather", "allgatherv", "allgatherv"};
+  if (light) bases = {"red", "red", "red", "red", "bcast", "gatherv", "gatherv", "allgather"};
   if (g.below(60) == 0) bases = {"barrier"};
   std::string base = g.pick(bases);
   auto funs = funsOf(k.ty);
@@ -1148,13 +1423,21 @@ static std::string genColl(Rng& g, int P) {
     std::string fn = g.pick(funs);
     std::vector<std::string> forms = {"ip", "io"};
     if (fn == "sum" || fn == "prod" || fn == "min" || fn == "max") { forms.push_back("sc"); forms.push_back("ar"); }
-    if (intr || trueScalar) { forms.push_back("iio"); forms.push_back("iip"); if (!seq) forms.push_back("rv"); }
+    if (!light && (intr || trueScalar)) { forms.push_back("iio"); forms.push_back("iip"); if (!seq) forms.push_back("rv"); }
+    if (light) forms = {"sc", "ip", "io"};
     form = g.pick(forms);
     bool namedFn = fn == "sum" || fn == "prod" || fn == "min" || fn == "max";
     if (form == "sc" || (!(intr && namedFn) && (form == "iio" || form == "iip" || form == "rv"))) k.n = 1;
     if (form == "iio" || form == "iip" || form == "rv") k.pad = 0;
     k.op = "red." + fn + "." + form;
-    std::string purpose = (fn == "sum" || fn == "prod" || fn == "xor") ? fn : "any";
+    std::string purpose = (fn == "sum" || fn == "prod" || fn == "xor" || fn == "aff") ? fn : "any";
+    // long arrays for user functors (everything that is not a predefined MPI_Op): MPI switches to other reduction
+    // algorithms (ring, segmented) beyond ~10 kB, where operand order and bracketing differ from the short case
+    bool userOp = !(namedFn && (intr || (light && k.ty != "llong")));
+    if (userOp && world && P >= 2 && (form == "ip" || form == "io") && g.coin(1, 8)) {
+      k.n = (int)g.range(2600, 5200) / (k.ty == "fv3" ? 3 : (k.ty == "pair" ? 2 : 1));
+      if (k.ty == "int" && fn != "sum" && fn != "prod") purpose = "small";
+    }
     // related contributions now and then: all equal, or one rank differs
     Cells common = genElems(g, k.ty, k.n, purpose);
     int modeRel = (int)g.below(4);
@@ -1165,6 +1448,7 @@ static std::string genColl(Rng& g, int P) {
   } else if (base == "bcast") {
     std::vector<std::string> forms = {"ptr", "ptr", "i"};
     if (trueScalar) forms.push_back("isc");
+    if (light) forms = {"ptr"};
     form = g.pick(forms);
     if (form == "isc") k.n = 1;
     if (form != "ptr") k.pad = 0;
@@ -1174,6 +1458,7 @@ static std::string genColl(Rng& g, int P) {
     std::vector<std::string> forms = {"ptr", "ptr"};
     if (!seq) forms.push_back("i");
     if (trueScalar) forms.push_back("isc");
+    if (light) forms = {"ptr"};
     form = g.pick(forms);
     if (form == "isc") k.n = 1;
     k.op = base + "." + form;
@@ -1257,7 +1542,7 @@ static std::string genP2p(Rng& g, int P) {
     dsts[r] = genElems(g, ty, dl);
   }
   std::ostringstream os;
-  os << "p2p " << mode << " " << cont << " " << ty << " shift=" << shift << " :";
+  os << "p2p " << mode << " " << cont << " " << ty << " shift=" << shift << " st=" << (g.coin(1, 3) ? 1 : 0) << " :";
   for (int r = 0; r < P; ++r) os << (r ? " | " : " ") << cellsStr(srcs[r]) << "/" << cellsStr(dsts[r]);
   return os.str();
 }
@@ -1271,6 +1556,7 @@ static std::string genPack(Rng& g, int P) {
     std::string kind = g.pick(std::vector<std::string>{"s", "s", "a", "v", "v", "v", "t"});
     std::string ty = kind == "t" ? "char" : g.pick(ELEM_TYPES);
     if (kind == "s" && g.coin(1, 6)) ty = "char";
+    else if ((kind == "s" || kind == "v") && g.coin(1, 4)) ty = g.pick(LIGHT_TYPES);
     int n = kind == "s" ? 1 : (kind == "a" ? 3 : genLen(g));
     int dn = (kind == "v" || kind == "t") ? genLen(g) : n;
     os << " " << kind << "/" << ty << "/" << cellsStr(genElems(g, ty, n)) << "/" << cellsStr(genElems(g, ty, dn));
@@ -1281,9 +1567,12 @@ static std::string genPack(Rng& g, int P) {
 static std::string gen(Rng& g, long i, const Args& a) {
   int P;
   MPI_Comm_size(MPI_COMM_WORLD, &P);
-  static const std::vector<std::string> TM = {"int", "long", "double", "char", "complex", "fv3", "big96", "pair", "pli", "ip"};
+  static const std::vector<std::string> TM = {"int", "long", "double", "char", "complex", "fv3", "big96", "pair", "pli", "ip",
+                                              "uchar", "short", "ushort", "uint", "ulong", "float", "ldouble", "cfloat", "cldouble", "llong", "pod"};
   if (i < (long)TM.size()) return tmapLine(TM[i], 1 + (int)(i % 3));
+  if (i == (long)TM.size()) return "misc np=" + std::to_string(P);
   int w = (int)g.below(100);
+  if (w < 1) return "misc np=" + std::to_string(P);
   if (w < 3) return tmapLine(g.pick(TM), (int)g.range(1, 4));
   if (w < 70) return genColl(g, P);
   if (w < 82) return genP2p(g, P);
